@@ -9,8 +9,12 @@ fast path of `IndexReader::search`: `rank_limit = limit + 1`, no aggregation col
 * `loop`/`step`  — `wand_loop`: cursors ordered by current document, pivot selection
                    (`acc += bound; acc >= threshold`), the `pivot_doc == smallest_doc` branch
                    (score, advance, conditional `push_top_k`), the skip branch
-                   (`skip_to_block` + `advance_to`); `blk = true` is the block-max variant whose
-                   bound is `block_upper_bound()` = maximum of the block the *cursor* is in;
+                   (`skip_to_block` + `advance_to`); pivot selection uses the term-wide bounds;
+                   `blk = true` (bmw) additionally drops a candidate when the block maxima of the
+                   cursors standing on it cannot reach the threshold; `hook = true` (a score hook
+                   is installed) switches pruning off; `legacy…` = the loop before /repo efe566e
+                   and 355106c (block bound of the cursor's block in pivot selection, pruning
+                   under hooks);
 * `runDocsO`/`wandRule` — the same algorithm as a per-document decision rule ("fully score `d`
                    iff the bounds of the terms containing `d` reach the threshold").
 
@@ -142,14 +146,6 @@ def sortCurs : List Cur → List Cur
   | [] => []
   | c :: cs => insCur c (sortCurs cs)
 
-/-- pivot selection: index of the first cursor (in queue order) at which the accumulated bound
-reaches the threshold -/
-def findPivot (blk : Bool) (θ : Nat) : Nat → List Cur → Option Nat
-  | _, [] => none
-  | acc, c :: cs =>
-    if acc + c.bound blk ≥ θ then some 0
-    else (findPivot blk θ (acc + c.bound blk) cs).map (· + 1)
-
 structure St where
   cs : List Cur          -- cursors that are not done
   H  : List Hit          -- the heap as a sorted list
@@ -157,20 +153,98 @@ deriving Repr, DecidableEq, Inhabited
 
 def notDone (c : Cur) : Bool := !c.done
 
+/-- pivot selection: index of the first cursor (in queue order) at which the accumulated
+**term-wide** bound reaches the threshold (since /repo 355106c for `wand` and `bmw` alike) -/
+def findPivot (θ : Nat) : Nat → List Cur → Option Nat
+  | _, [] => none
+  | acc, c :: cs =>
+    if acc + c.t.ub ≥ θ then some 0
+    else (findPivot θ (acc + c.t.ub) cs).map (· + 1)
+
+/-- `pivot_threshold`: the heap threshold, or "−∞" (every comparison `acc ≥ …` succeeds, here 0)
+when a score hook rewrites the final score (since /repo efe566e) -/
+def pivotTheta (k : Nat) (hook : Bool) (H : List Hit) : Nat := if hook then 0 else theta k H
+
+/-- `block_acc`: sum of `block_upper_bound()` over the cursors standing on document `d` -/
+def blockAcc (cs : List Cur) (d : Nat) : Nat :=
+  match cs with
+  | [] => 0
+  | c :: r => (if c.doc == d then c.bound true else 0) + blockAcc r d
+
 /-- one iteration of the `loop { … }` of `wand_loop`; `none` = `break`.
+
+The queue order (`sortCurs`) is used for pivot selection only.  In the skip branch the code moves
+`pending[..p_idx]`, the cursors popped before the pivot; those are all cursors with
+`doc < pivot_doc` plus possibly some with `doc = pivot_doc`, on which `skip_to_block` and
+`advance_to` do nothing — so "every cursor with `doc < pivot_doc`" is the same update.  In the
+candidate branch `pending` holds exactly the cursors standing on the candidate; with `blk` the
+candidate is dropped without scoring when their block maxima cannot reach the threshold. -/
+def step (k : Nat) (blk hook : Bool) (sc : Nat → Option Nat) (s : St) : Option St :=
+  match sortCurs s.cs with
+  | [] => none
+  | c0 :: rest =>
+    let q := c0 :: rest
+    let pθ := pivotTheta k hook s.H
+    match findPivot pθ 0 q with
+    | none => none
+    | some p =>
+      let pd := (q.getD p c0).doc
+      let sd := c0.doc
+      if pd == sd then
+        let cs' := (s.cs.map fun c => if c.doc == sd then c.advance else c).filter notDone
+        if blk && decide (blockAcc s.cs sd < pθ) then some ⟨cs', s.H⟩
+        else
+          let H' := match sc sd with
+            | some v => offer k s.H (v, sd)
+            | none => s.H
+          some ⟨cs', H'⟩
+      else
+        let cs' := s.cs.map fun c =>
+          if c.doc < pd then (if blk then c.skipToBlock pd else c).advanceTo pd else c
+        some ⟨cs'.filter notDone, s.H⟩
+
+def loop (k : Nat) (blk hook : Bool) (sc : Nat → Option Nat) : Nat → St → List Hit
+  | 0, s => s.H
+  | n + 1, s =>
+    match step k blk hook sc s with
+    | none => s.H
+    | some s' => loop k blk hook sc n s'
+
+/-- the repaired loop as a per-document decision rule: a candidate is skipped iff the term-wide
+bounds of the terms containing it stay below the pivot threshold, or (bmw) the maxima of the
+blocks that contain it do -/
+def pruneSkip (k : Nat) (blk hook : Bool) (ub bb : Nat → Nat) (H : List Hit) (d : Nat) : Bool :=
+  decide (ub d < pivotTheta k hook H) || (blk && decide (bb d < pivotTheta k hook H))
+
+def pruneRule (k : Nat) (blk hook : Bool) (sc : Nat → Option Nat) (ub bb : Nat → Nat)
+    (D : List Nat) : List Hit :=
+  runDocsO k sc (pruneSkip k blk hook ub bb) [] D
+
+/-! ### the loop before the repairs (legacy) -/
+
+/-- legacy pivot selection (before /repo 355106c): with `blk` the bound of a cursor was the
+maximum of the block the cursor is in -/
+def legacyFindPivot (blk : Bool) (θ : Nat) : Nat → List Cur → Option Nat
+  | _, [] => none
+  | acc, c :: cs =>
+    if acc + c.bound blk ≥ θ then some 0
+    else (legacyFindPivot blk θ (acc + c.bound blk) cs).map (· + 1)
+
+/-- one iteration of `wand_loop` as it was before /repo efe566e and 355106c (kept for the
+kernel-checked witnesses of the two repaired defects); `none` = `break`.
 
 The queue order (`sortCurs`) is used for pivot selection only.  The code then moves
 `pending[..p_idx]`, the cursors popped before the pivot; those are all cursors with
 `doc < pivot_doc` plus possibly some with `doc = pivot_doc`, on which `skip_to_block` and
 `advance_to` do nothing — so "every cursor with `doc < pivot_doc`" is the same update and does
 not depend on the (unspecified) heap order among equal documents. -/
-def step (k : Nat) (blk : Bool) (sc : Nat → Option Nat) (s : St) : Option St :=
+def legacyStep (k : Nat) (blk : Bool) (sc : Nat → Option Nat) (s : St) : Option St :=
   match sortCurs s.cs with
   | [] => none
   | c0 :: rest =>
     let q := c0 :: rest
     let θ := theta k s.H
-    match findPivot blk θ 0 q with
+    match legacyFindPivot blk θ 0 q with
     | none => none
     | some p =>
       let pd := (q.getD p c0).doc
@@ -186,12 +260,12 @@ def step (k : Nat) (blk : Bool) (sc : Nat → Option Nat) (s : St) : Option St :
           if c.doc < pd then (if blk then c.skipToBlock pd else c).advanceTo pd else c
         some ⟨cs'.filter notDone, s.H⟩
 
-def loop (k : Nat) (blk : Bool) (sc : Nat → Option Nat) : Nat → St → List Hit
+def legacyLoop (k : Nat) (blk : Bool) (sc : Nat → Option Nat) : Nat → St → List Hit
   | 0, s => s.H
   | n + 1, s =>
-    match step k blk sc s with
+    match legacyStep k blk sc s with
     | none => s.H
-    | some s' => loop k blk sc n s'
+    | some s' => legacyLoop k blk sc n s'
 
 def sumLens : List Term → Nat
   | [] => 0
@@ -200,8 +274,11 @@ def sumLens : List Term → Nat
 def initSt (ts : List Term) : St := ⟨(ts.map Cur.init).filter notDone, []⟩
 
 /-- `wand_loop` on a segment (`fuel` = number of postings + 1: every iteration consumes one) -/
-def wandLoop (k : Nat) (blk : Bool) (sc : Nat → Option Nat) (ts : List Term) : List Hit :=
-  loop k blk sc (sumLens ts + 1) (initSt ts)
+def wandLoop (k : Nat) (blk hook : Bool) (sc : Nat → Option Nat) (ts : List Term) : List Hit :=
+  loop k blk hook sc (sumLens ts + 1) (initSt ts)
+
+def legacyWandLoop (k : Nat) (blk : Bool) (sc : Nat → Option Nat) (ts : List Term) : List Hit :=
+  legacyLoop k blk sc (sumLens ts + 1) (initSt ts)
 
 /-! ## one segment, all strategies -/
 
@@ -213,6 +290,9 @@ structure SegIn where
   /-- the query has no scored term at all: `scan_segment` ranks every live matching document,
   whatever the execution strategy -/
   scan  : Bool := false
+  /-- a score hook is installed (`score_adjust.is_some()`): function_score / script_score /
+  rank_feature somewhere in the score tree -/
+  hook  : Bool := false
 deriving Repr, DecidableEq, Inhabited
 
 def SegIn.sc (s : SegIn) (d : Nat) : Option Nat :=
@@ -234,8 +314,16 @@ def runSeg (st : Strategy) (k : Nat) (s : SegIn) : List Hit :=
   if s.scan then brute k s else
   match st with
   | .bm25 => brute k s
-  | .wand => wandLoop k false s.sc s.terms
-  | .bmw => wandLoop k true s.sc s.terms
+  | .wand => wandLoop k false s.hook s.sc s.terms
+  | .bmw => wandLoop k true s.hook s.sc s.terms
+
+/-- the strategies before /repo efe566e and 355106c -/
+def legacyRunSeg (st : Strategy) (k : Nat) (s : SegIn) : List Hit :=
+  if s.scan then brute k s else
+  match st with
+  | .bm25 => brute k s
+  | .wand => legacyWandLoop k false s.sc s.terms
+  | .bmw => legacyWandLoop k true s.sc s.terms
 
 /-! ## where the bounds come from -/
 
@@ -268,6 +356,14 @@ def SegIn.wf (s : SegIn) : Bool :=
     s.docs.all (fun d => s.terms.any (·.has d)) &&
     s.terms.all (fun t => t.posts.all (fun p => s.docs.contains p.1))
 
+/-- the block metadata of a term are usable: positive block size, and the recorded last document
+of block `i / bs` dominates posting `i` (what `skip_to_block` relies on) -/
+def blocksOkFrom (t : Term) : Nat → List (Nat × Nat) → Bool
+  | _, [] => true
+  | i, p :: ps => decide (p.1 ≤ t.blockMaxDoc.getD (i / t.bs) 0) && blocksOkFrom t (i + 1) ps
+
+def Term.blocksOk (t : Term) : Bool := decide (0 < t.bs) && blocksOkFrom t 0 t.posts
+
 /-- the hypothesis of the pruning theorems, as an executable check on concrete data -/
 def boundsOk (s : SegIn) : Bool :=
   s.fin.all fun (d, o) => match o with
@@ -279,6 +375,23 @@ def blockBoundsOk (s : SegIn) : Bool :=
   s.fin.all fun (d, o) => match o with
     | some v => decide (v ≤ blockSum s.terms d)
     | none => true
+
+/-- every posting is dominated by the recorded maximum of its own block (what the block check of
+`bmw` needs: the block bound of a cursor standing on a document is at least that cursor's
+contribution to the document) -/
+def validBlocksFrom (t : Term) : Nat → List (Nat × Nat) → Bool
+  | _, [] => true
+  | i, p :: ps => decide (p.2 ≤ t.blockUb.getD (i / t.bs) 0) && validBlocksFrom t (i + 1) ps
+
+def validBlockBounds (ts : List Term) : Bool := ts.all fun t => validBlocksFrom t 0 t.posts
+
+/-- the decidable premises of the pruning theorem for one segment and one strategy: either the
+segment is ranked by `scan_segment`, or it is well formed, (bmw) its block metadata are usable,
+and — unless a score hook switches pruning off — the bounds dominate the accepted scores -/
+def segOk (st : Strategy) (s : SegIn) : Bool :=
+  s.scan ||
+    (s.wf && (st != .bmw || s.terms.all Term.blocksOk) &&
+      (s.hook || (boundsOk s && (st != .bmw || blockBoundsOk s))))
 
 /-! ## merging segments (`hits.sort_by(key); truncate(limit)` with the score key) -/
 
@@ -296,48 +409,7 @@ def mergeSegs : Nat → List (List Hit) → List Hit
 def search (st : Strategy) (k limit : Nat) (segs : List SegIn) : List Hit :=
   best limit (mergeSegs 0 (segs.map (runSeg st k)))
 
-/-! ## knife-edge detector (not part of any theorem)
-
-`f32` vs `Float` rounding can flip a comparison `acc ≥ θ` or `score > θ` only when both sides are
-within a few ulps.  The driver reports whether any comparison of a run was that close (but not
-equal up to the quantisation slack), so that the harness does not count a numerically undecided
-case as a disagreement. -/
-
-def close (slack a b : Nat) : Bool :=
-  let d := if a ≥ b then a - b else b - a
-  decide (d > slack) && decide (d * 100000 ≤ b)
-
-def pivotKnife (blk : Bool) (slack θ : Nat) : Nat → List Cur → Bool
-  | _, [] => false
-  | acc, c :: cs =>
-    let a := acc + c.bound blk
-    if a ≥ θ then close slack a θ else close slack a θ || pivotKnife blk slack θ a cs
-
-def stepKnife (k : Nat) (blk : Bool) (sc : Nat → Option Nat) (slack : Nat) (s : St) : Bool :=
-  match sortCurs s.cs with
-  | [] => false
-  | c0 :: rest =>
-    let q := c0 :: rest
-    let θ := theta k s.H
-    (θ > 0 && pivotKnife blk slack θ 0 q) ||
-      (match findPivot blk θ 0 q with
-       | some p =>
-         if (q.getD p c0).doc == c0.doc then
-           match sc c0.doc with
-           | some v => θ > 0 && close 0 v θ
-           | none => false
-         else false
-       | none => false)
-
-def loopKnife (k : Nat) (blk : Bool) (sc : Nat → Option Nat) (slack : Nat) : Nat → St → Bool
-  | 0, _ => false
-  | n + 1, s =>
-    stepKnife k blk sc slack s ||
-      (match step k blk sc s with
-       | none => false
-       | some s' => loopKnife k blk sc slack n s')
-
-def knife (k : Nat) (blk : Bool) (s : SegIn) : Bool :=
-  loopKnife k blk s.sc (2 * s.terms.length + 2) (sumLens s.terms + 1) (initSt s.terms)
+def legacySearch (st : Strategy) (k limit : Nat) (segs : List SegIn) : List Hit :=
+  best limit (mergeSegs 0 (segs.map (legacyRunSeg st k)))
 
 end SL.TK
